@@ -183,7 +183,11 @@ def dblock_outcome(ck, d, two, pad, terms):
     head = [2, y.version, y.data_version] if two else [1, y.version]
     want = ([2, 1, 16] if two else [1, 16]) + F.c_dval_d(d)
     cy = head + F.c_dval_o_as_desc(y)
-    if F.wf_dval(d) and not (y == blk and cy == want and y.tobytes(padding=pad) == b and n == len(b)):
+    try:
+        stable = (y == blk and cy == want and y.tobytes(padding=pad) == b and n == len(b))
+    except Exception:
+        stable = False
+    if F.wf_dval(d) and not stable:
         ck.fail("descriptor-block-roundtrip", {"dval": jdeep(d), "padding": pad, "two": two}, "re-read != original or re-write differs",
                 "X.frombytes(x.tobytes()) == x")
     return out + [0, h63_list(0, cy), int(cy == want), grown, int(F.wf_dval(d))]
@@ -213,7 +217,11 @@ def typed_block_outcome(ck, l, obj, v, pad, sg, key):
         return out + [0, 0]
     cy = [F.fcc(y.signature), F.key_int(y.key)] + F.c_leaf_o(y.data)
     same = cy == [sg, key] + F.c_leaf_o(obj)
-    if F.wf_leaf(l) and not (y == t and y.tobytes(v, pad) == b):
+    try:
+        stable = (y == t and y.tobytes(v, pad) == b)
+    except Exception:
+        stable = False
+    if F.wf_leaf(l) and not stable:
         ck.fail("typed-block-roundtrip:" + l[0], {"leaf": jleaf(l), "version": v, "padding": pad, "key": key},
                 "re-read != original or re-write differs", "TaggedBlock.frombytes(t.tobytes()) == t")
     return out + [0, h63_list(0, cy), int(same)]
@@ -279,6 +287,9 @@ def leaf_instances_from_fixtures(paths, limit_per_class=40):
                            limit_per_class)
 
 
+NESTED = set()     # classes met only inside another payload object (covered through their parent's round trip)
+
+
 def check_leaf(ck, origin, obj, wkw, rkw, covered):
     cls = type(obj)
     name = cls.__module__.split(".")[-1] + "." + cls.__name__
@@ -291,6 +302,14 @@ def check_leaf(ck, origin, obj, wkw, rkw, covered):
         return
     covered.setdefault(name, 0)
     covered[name] += 1
+    try:
+        from psd_tools.psd.base import BaseElement
+
+        for sub in BaseElement._traverse(obj):
+            if sub is not obj and isinstance(sub, BaseElement):
+                NESTED.add(type(sub).__module__.split(".")[-1] + "." + type(sub).__name__)
+    except Exception:
+        pass
     if written != len(b):
         ck.fail("written-count-leaf:" + name, {"class": name, "origin": origin, "bytes": list(b[:200])}, written, len(b))
     try:
@@ -406,6 +425,45 @@ def special_leaves():
 
 
 # ----------------------------------------------------------------------------- the run
+def payloads_normalised(b, d):
+    """does the implementation serialise some parsed payload of this file differently from the bytes in the file?
+    (raw payloads located with the independent walker)"""
+    try:
+        lay = F.walk(b)
+    except F.WalkError:
+        return True
+    v = d.header.version
+    lami = d.layer_and_mask_information
+    blocks = []
+    li = lami.layer_info
+    if li is not None and li.layer_records:
+        for r in li.layer_records:
+            blocks += [(t, 1) for t in r.tagged_blocks.values()]
+    raws = [(st, sz) for k, st, sz in lay if k == F.K_LTB]
+    if lami.tagged_blocks is not None:
+        blocks += [(t, 4) for t in lami.tagged_blocks.values()]
+    raws += [(st, sz) for k, st, sz in lay if k == F.K_GTB]
+    if len(raws) != len(blocks):
+        return True
+    for (t, padding), (st, sz) in zip(blocks, raws):
+        nb = 8 if (v == 2 and F.key_int(t.key) in F.WALK_BIG_KEYS) else 4
+        n = int.from_bytes(b[st + 8:st + 8 + nb], "big")
+        raw = b[st + 8 + nb:st + 8 + nb + n]
+        if raw != F.payload_bytes(t.data, padding=(1 if padding == 4 else 4), version=v):
+            return True
+    res = [(st, sz) for k, st, sz in lay if k == F.K_RES]
+    items = list(d.image_resources.values())
+    if len(res) != len(items):
+        return True
+    for r, (st, sz) in zip(items, res):
+        nl = b[st + 6]
+        q = st + 7 + nl + ((1 + nl) % 2)
+        n = int.from_bytes(b[q:q + 4], "big")
+        if b[q + 4:q + 4 + n] != F.payload_bytes(r.data, padding=1):
+            return True
+    return False
+
+
 def fixture_paths(limit):
     ps = sorted(glob.glob(os.path.join(FIXTURES, "*.psd")) + glob.glob(os.path.join(FIXTURES, "*.psb")))
     return [p for p in ps if os.path.getsize(p) <= limit]
@@ -436,7 +494,7 @@ def run():
 
     # ---- (a) generated elements and documents
     cases, metas = [], []
-    for case, tag in gen_cases(ck, 600 if thorough else 110, 3000 if thorough else 500):
+    for case, tag in gen_cases(ck, 1500 if thorough else 110, 9000 if thorough else 500):
         r = F.run_impl(case, exc_code)
         if r["out"] is None:
             ck.count("not-constructible:" + case[0])
@@ -471,7 +529,7 @@ def run():
         ck.obligations.append(("generated-leaf-tables-agree", False, str(e)[-500:]))
     lcases, tcases = [], []
     lkeys = F.leaf_keys()
-    for i in range(6000 if thorough else 1200):
+    for i in range(24000 if thorough else 1200):
         l = F.g_leaf(rng)
         pad = [1, 2, 4][i % 3]
         out, info = F.run_leaf(l, pad, exc_code)
@@ -525,7 +583,7 @@ def run():
     if any(len(t) != 4 for t in terms):
         ck.obligations.append(("terms-are-4-byte-codes", False, "descriptor._TERMS holds a key that is not 4 bytes long"))
     dcases, bcases = [], []
-    for i in range(4000 if thorough else 700):
+    for i in range(14000 if thorough else 700):
         d = F.g_dval(rng, terms, units)
         out, info = F.run_dval(d, exc_code)
         if out is None:
@@ -576,7 +634,7 @@ def run():
     except Exception as e:
         ck.obligations.append(("generated-effect-types-agree", False, str(e)[-500:]))
     ecases = []
-    for i in range(3000 if thorough else 500):
+    for i in range(10000 if thorough else 500):
         l = F.g_effects(rng)
         out, info = F.run_effects(l, exc_code)
         if out is None:
@@ -616,7 +674,12 @@ def run():
             out = [exc_code(e)]
             d = None
         if d is not None:
-            out = [0, h63_list(0, F.c_psd_o(d, "macroman"))]
+            try:
+                out = [0, h63_list(0, F.c_psd_o(d, "macroman"))]
+            except Exception as e:
+                ck.fail("rewrite-fixture", {"fixture": name}, "a payload read from the file cannot be written again: %r" % e,
+                        "the structure read from the file is writable")
+                continue
             first = None
             for pad in (1, 2, 4):
                 f = io.BytesIO()
@@ -641,8 +704,16 @@ def run():
                     ck.fail("rewrite-fixture", {"fixture": name, "padding": pad}, "re-written bytes differ", "identical bytes")
             ck.count("fixture:" + ("psb" if d.header.version == 2 else "psd"))
             ck.nontriv(("fixture", name))
-        if len(b) <= lim_coq:
-            fcases.append((b, out))
+        inp = b
+        if d is not None and payloads_normalised(b, d):
+            # the implementation parsed a payload and serialises it differently (e.g. an unpadded unicode layer name gets its
+            # padding): the opaque-payload model cannot follow that; it reads the file as the library re-wrote it instead
+            f4 = io.BytesIO()
+            d.write(f4, padding=4)
+            inp = f4.getvalue()
+            ck.count("fixture:model-reads-the-rewritten-bytes")
+        if len(inp) <= lim_coq:
+            fcases.append((inp, out))
             fnames.append(name)
     badf = ck.correspond("fixtures", "file_outcome", IMPORTS, fcases, F.coq_bytes, chunk=4, timeout=1800)
     for i in badf[:5]:
@@ -722,7 +793,8 @@ def run():
                 "EffectsLayer", "CommonStateInfo", "ShadowInfo", "OuterGlowInfo", "InnerGlowInfo", "BevelInfo", "SolidFillInfo"]
     all_classes = all_element_classes()
     oracle_only = sorted(k for k in covered if k.split(".")[-1] not in modelled)
-    not_covered = sorted(c for c in all_classes if c not in covered and c.split(".")[-1] not in modelled)
+    not_covered = sorted(c for c in all_classes if c not in covered and c not in NESTED and c.split(".")[-1] not in modelled)
+    nested_only = sorted(c for c in NESTED if c not in covered and c.split(".")[-1] not in modelled)
     ck.assumptions += [
         "payloads of tagged blocks and image resources are opaque bytes in the model: the container theorems hold for any payload; "
         "the leaf classes listed under oracle_only are exercised on the implementation only (fixture instances + constructed instances)",
@@ -730,7 +802,8 @@ def run():
         "doubles are carried as 64-bit patterns; NaN excluded from generated MaskParameters (nan != nan in Python equality)",
         "equality is Python equality of the attrs structures after write() ran (write refreshes channel lengths in place)",
     ]
-    return ck.finish({"modelled": modelled, "oracle_only": oracle_only, "not_covered": not_covered,
+    return ck.finish({"modelled": modelled, "oracle_only": oracle_only, "oracle_only_inside_a_parent": nested_only,
+                      "not_covered": not_covered,
                       "constructed_instances_skipped": CONSTRUCTED_SKIP,
                       "leaf_instances_checked": covered, "tables": {k: (v if not isinstance(v, list) else len(v)) for k, v in tables.items()}})
 
